@@ -62,9 +62,29 @@ for d in sorted((ROOT / "seeded").iterdir()):
     rows.append(f"| {d.name} | {meta.get('property', d.name[:3])} | {esc(meta.get('summary', ''))[:230]} | {esc(meta.get('needs', ''))[:160]} | {', '.join(res)} | {esc(rep)} |")
 seed_table = "\n".join(rows)
 
+# per-property status from the property modules and the last evidence files
+import importlib
+import sys
+sys.path.insert(0, str(ROOT / "harness"))
+import core
+core.use_repo()
+rows = ["| id | theorems audited | generated inputs | correspondence ops | laws (search on the real code) | not covered by a theorem |", "|---|---|---|---|---|---|"]
+for pf in sorted((ROOT / "harness" / "props").glob("C*.py")):
+    pid = pf.stem
+    P = importlib.import_module(f"props.{pid}").PROP
+    ev = {}
+    ef = ROOT / "evidence" / f"{pid}.json"
+    if ef.exists():
+        ev = json.loads(ef.read_text()).get("coverage", {})
+    ops = sorted({k.split(":")[0] for k in ev.get("correspondence", {}).get("distribution", {})})
+    laws = sorted(ev.get("laws", {}).get("per_law", {}))
+    claimed = "" if getattr(P, "claim", True) else " (not yet claimed)"
+    rows.append(f"| {pid}{claimed} | {len(P.theorems)} | {', '.join(P.generated) or '—'} | {esc(', '.join(ops)[:120]) or '—'} | {esc(', '.join(laws)[:160]) or '—'} | {esc('; '.join(P.partial))[:420] or '—'} |")
+status_table = "\n".join(rows)
+
 p = ROOT / "DESIGN.md"
 s = p.read_text()
-for name, tab in (("fixes", fix_table), ("known", known_table), ("seeded", seed_table)):
+for name, tab in (("fixes", fix_table), ("known", known_table), ("seeded", seed_table), ("status", status_table)):
     a, b = f"<!-- BEGIN GENERATED {name} -->", f"<!-- END GENERATED {name} -->"
     if a in s:
         s = s[: s.index(a) + len(a)] + "\n" + tab + "\n" + s[s.index(b):]
